@@ -17,8 +17,62 @@ ACTIVITY = (1, 2, 4, 5, 6)     # produce, callLater, reset metadata, load metada
 
 
 # ------------------------------------------------------------------ monitors (implementation trace only)
-def monitor(run):
-    """returns [(step, 'tag: text')].  Uses only: the calls made on the producer, its configuration, what it asked of
+def steps2(run):
+    """driver 2 (real KafkaClient): the steps of a run reconstructed from its model events and trace alone (the pairs
+    the correspondence compares): unresolved = sends accepted so far minus outcomes seen; what the client is still
+    doing is not visible at this level (busy / looper are reported as False; the end of the run is checked apart)"""
+    out, unres, nsid = [], [], 0
+    prev = {"unresolved": [], "busy": False, "looper": False}
+    for i, (mev, outs) in enumerate(zip(run.events, run.trace)):
+        snap = {"busy": False, "looper": False}
+        if mev[0] in (1, 2):
+            snap["sid"] = nsid
+            if mev[0] == 1:
+                unres = unres + [nsid]
+            nsid += 1
+        done = {o[1] for o in outs if o[0] == 7}
+        before = dict(prev, unresolved=[s for s in unres if mev[0] != 1 or s != snap.get("sid")])
+        unres = [s for s in unres if s not in done]
+        snap["unresolved"] = list(unres)
+        out.append((i, mev, [list(o) for o in outs], before, snap))
+        prev = snap
+    return out
+
+
+def monitor2(run):
+    """the stop clauses of C19 over a driver-2 run"""
+    bad = monitor(run, only_stop=True, steps=steps2(run))
+    if run.stopped_at is not None and run.busy():
+        bad.append((len(run.events) - 1, "after-stop: the producer is still waiting on its client / a timer at the end of a run that was stopped"))
+    return bad
+
+
+def value_of_mev(mev):
+    """the value delivered by the cancelled client Deferred, decoded from the model event [11] + value ints
+    (producer_lib.value_ints): the same for driver 1 (scripted client) and driver 2 (real KafkaClient)"""
+    tag = mev[1]
+    if tag == 0:
+        return ("empty",)
+    if tag == 1:
+        n = mev[2]
+        f = mev[3:3 + n]
+        return ("resp", [tuple(f[k:k + 4]) for k in range(0, n, 4)])
+    if tag == 2:
+        n1 = mev[2]
+        f1 = mev[3:3 + n1]
+        n2 = mev[3 + n1]
+        f2 = mev[4 + n1:4 + n1 + n2]
+        return ("failed", [tuple(f1[k:k + 4]) for k in range(0, n1, 4)], [tuple(f2[k:k + 3]) for k in range(0, n2, 3)])
+    if tag == 3:
+        return ("kafka", mev[2])
+    return ("other", mev[2])
+
+
+def monitor(run, only_stop=False, steps=None):
+    """only_stop: the clauses about stop() and what follows it only (refused sends, nothing after stop, outcomes of
+    stop(), cancelled-before-dispatch never on the wire, one partitioner per topic) - used over driver 2 (the real
+    KafkaClient), where one environment event may be several model steps.
+    returns [(step, 'tag: text')].  Uses only: the calls made on the producer, its configuration, what it asked of
     its client/reactor, and the state of the Deferreds it returned."""
     cfg = run.cfg
     bad = []
@@ -30,7 +84,7 @@ def monitor(run):
     never = {}          # sid -> step at which the caller was told request_sent=False
     on_wire = {}        # sid -> first step its messages were in a produce request
     outcomes = {}
-    for (i, mev, outs, before, after) in PC.steps(run):
+    for (i, mev, outs, before, after) in (steps if steps is not None else PC.steps(run)):
         op = mev[0]
         ub = before["unresolved"]
         cnt_b = sum(PC.size_of(run, s)[0] for s in ub)
@@ -40,7 +94,7 @@ def monitor(run):
         # ended batch stay unresolved for ever, so "unresolved = queued or in flight" no longer holds: the checks that
         # rest on it stop there (the theorems still hold; the correspondence still compares every step)
         honest = run.dishonest_at is None or i < run.dishonest_at
-        if honest and immediate and not stopped and op not in (1, 4, 11) and not idle_b:
+        if honest and immediate and not stopped and op not in (1, 4, 11) and not idle_b and not only_stop:
             # C19_dispatch_iff, third case: a batch dispatched by an event that completes the batch in flight
             queued = [s for s in ub if s not in on_wire]
             first = [o for o in outs if o[0] == 1 and o[1] == 1]
@@ -74,10 +128,10 @@ def monitor(run):
                 bad.append((i, "after-stop: activity after stop(): %r" % (outs,)))
         if op == 1 and stopped:
             # C19_send_refused_when_stopping
-            sid = run.send_ev[i]
+            sid = after["sid"] if "sid" in after else run.send_ev[i]
             if outs != [[7, sid, 0, L.K_CANCEL, 0, 0, 0]] or sid in after["unresolved"]:
                 bad.append((i, "refused: send_messages on a stopped producer produced %r, expected an immediate CancelledError(request_sent=False)" % (outs,)))
-        if op == 1 and not stopped and honest:
+        if op == 1 and not stopped and honest and not only_stop:
             cnt, byt = mev[3], mev[4]
             if not idle_b:
                 if outs:
@@ -87,7 +141,7 @@ def monitor(run):
                 if bool(outs) != expected:
                     bad.append((i, "dispatch-iff: send_messages with %d msgs/%d bytes waiting (n=%r b=%r): dispatch expected=%s observed=%s"
                                 % (cnt_b + cnt, byt_b + byt, PC.thresholds(cfg)[0], PC.thresholds(cfg)[1], expected, bool(outs))))
-        if op == 4 and not stopped and honest:
+        if op == 4 and not stopped and honest and not only_stop:
             if not before["looper"] or not idle_b:
                 if outs:
                     bad.append((i, "dispatch-iff: tick (timer armed=%s, batch in flight=%s) produced %r" % (before["looper"], not idle_b, outs)))
@@ -97,7 +151,7 @@ def monitor(run):
                 left = [s for s in ub if s in after["unresolved"]]
                 if left and not after["busy"]:
                     bad.append((i, "no-starvation: sends %r still waiting after a tick with no batch in flight" % (left,)))
-        if op == 3:
+        if op == 3 and not only_stop:
             sid = mev[1]
             if sid in ub:
                 ok = len(outs) == 1 and outs[0][:4] == [7, sid, 0, L.K_CANCEL] and outs[0][4] in (0, 1)
@@ -124,7 +178,7 @@ def monitor(run):
             else:
                 # C19_stop_outcomes: a cancellation, or what the value delivered by the cancelled client Deferred
                 # says about the send's payload
-                v = run.pyevents[i][1]
+                v = value_of_mev(mev)
                 kinds = {L.K_CANCEL, L.K_TIDCANCEL}
                 acks_ok = set()
                 if v[0] in ("kafka", "other"):
@@ -146,7 +200,7 @@ def monitor(run):
                                        "cancelled client Deferred says" % (o, v)))
             stopped = True
         # C19_no_due_batch_waits
-        if not stopped and not after["busy"] and honest:
+        if not stopped and not after["busy"] and honest and not only_stop:
             ua = after["unresolved"]
             c = sum(PC.size_of(run, s)[0] for s in ua)
             b = sum(PC.size_of(run, s)[1] for s in ua)
@@ -157,6 +211,8 @@ def monitor(run):
     # start, and every re-arming lands on a whole multiple of it (clause "no longer than one period")
     clock = run.clock
     want = float(cfg["t"]) if (cfg["batch"] and cfg["t"]) else None
+    if only_stop and not hasattr(clock, "looper_delays"):
+        want, clock = None, type("NoLooperRecord", (), {"looper_delays": [], "looper_times": []})()
     if want is None:
         if clock.looper_delays:
             bad.append((0, "period: a periodic call was started (delays %r) although no time limit is configured" % (clock.looper_delays[:3],)))
@@ -233,6 +289,107 @@ def run_word(cfg, word):
     return run
 
 
+# ------------------------------------------------------------------ driver 2: the real KafkaClient under the producer
+def stop_partial_scenario(seed, acks=1, answered=1):
+    """F-C19-4: one batch with a payload for each of two brokers is in flight, `answered` of the two brokers have
+    answered, stop().  Returns the finished run (real Producer over the real KafkaClient, scripted brokers) or None
+    if the cluster seed puts both partitions on one broker."""
+    from props import producer_c01_lib as CL
+    from props import C01 as D
+    cfg = D.base_cfg2(acks, True, 3, n=4, nparts={0: 2}, ntop=1, known=[0], nbrokers=2, cluster_seed=seed)
+    cfg["script"] = {}
+    run = CL.make_run2(cfg)
+    run.pyevents = []
+    if run.cluster.leader[(0, 0)] == run.cluster.leader[(0, 1)]:
+        return None
+    for sid, ch in enumerate([0, 1]):
+        cfg["script"][L.make_key(sid, False)] = ch
+        CL.apply2(run, ("send", sid, 0, False, [12, 9]))
+    left = answered
+    for _ in range(50):
+        breqs = CL.pending2(run)[0]
+        other = [br for br in breqs if br.req["key"] != 0]
+        prod = [br for br in breqs if br.req["key"] == 0]
+        if other:
+            CL.apply2(run, ("bans", other[0].rid, None))
+        elif prod and left > 0:
+            CL.apply2(run, ("bans", prod[0].rid, None))
+            left -= 1
+        else:
+            break
+    CL.apply2(run, ("stop",))
+    return run
+
+
+def stop_successes(run):
+    """[(step, outcome, acknowledged?)] for every SUCCESS outcome inside a stop() step of a driver-2 run; acknowledged =
+    a broker of the simulated cluster appended that payload at that offset before the stop"""
+    res = []
+    for (i, mev, outs, _b, _a) in steps2(run):
+        if mev[0] != 11:
+            continue
+        for o in outs:
+            if o[0] == 7 and o[2] != 0:
+                ack = o[2] == 1 and any((t, p, base) == (o[3], o[4], o[6]) for (_st, _n, t, p, base, _kv) in run.cluster.appends)
+                res.append((i, o, ack))
+    return res
+
+
+def check_driver2(ck, rnd, nrandom):
+    """the stop clauses over the real client: directed F-C19-4 scenarios + seeded random driver-2 histories"""
+    from props import producer_c01_lib as CL
+    from props import C09
+    runs, labels = [], []
+    for seed in range(12):
+        for acks in (1, -1):
+            for answered in (0, 1, 2):
+                r = stop_partial_scenario(seed, acks, answered)
+                if r is not None:
+                    runs.append(r)
+                    labels.append("directed: two leaders, %d of 2 answered, stop (acks %d, cluster seed %d)" % (answered, acks, seed))
+                    ck.hist("driver2_directed_stop_scenarios")
+    for k in range(nrandom):
+        runs.append(CL.gen_run2(rnd, C09.cfg_wire(rnd) if k % 2 else None))
+        labels.append("random")
+        ck.hist("driver2_random_histories")
+    witness, nbad = None, 0
+    for run, label in zip(runs, labels):
+        msgs = monitor2(run)
+        if run.problems:
+            msgs = msgs + [(0, "driver: " + p) for p in run.problems[:3]]
+        for (i, mev, outs, _b, _a) in steps2(run):
+            if mev[0] == 11:
+                ck.hist("driver2_stop_steps")
+                if mev[1:] != [-1]:
+                    ck.hist("driver2_stop_steps_with_a_value_delivered_by_the_cancelled_request")
+        for (i, o, ack) in stop_successes(run):
+            if ack or (o[2] == 2 and run.cfg["acks"] == 0):
+                ck.hist("driver2_success_inside_stop_(F-C19-4)")
+                if witness is None or label.startswith("directed") and not witness[1].startswith("directed"):
+                    witness = (run, label, i, o)
+            else:
+                msgs.append((i, "stop: send %d SUCCEEDS inside stop() with %r but no broker acknowledged that payload at that offset" % (o[1], o)))
+        if msgs:
+            nbad += 1
+            if nbad <= 3:
+                ck.violation({"kind": "C19 stop monitor failed on the implementation trace (driver 2: real Producer over the real KafkaClient, scripted brokers)",
+                              "theorems": ["C19_stop", "C19_stop_outcomes", "C19_send_refused_when_stopping", "C19_nothing_after_stop"],
+                              "scenario": label, "monitor": [[int(a), str(b)] for (a, b) in msgs[:6]], "driver": 2, "cfg": CL.jsonable(run.cfg),
+                              "pyevents": CL.jsonable(run.pyevents), "model_events": run.events, "impl_trace": run.trace, "replay_op": "run2"})
+            else:
+                ck.nviol = getattr(ck, "nviol", 0) + 1
+    what = ("stop() while a batch spanning several brokers is in flight and one broker has already answered: the cancelled client request "
+            "delivers the acknowledged payloads' responses, so those sends SUCCEED (truthfully, cf. C01) inside stop() instead of failing with "
+            "a cancellation error; nothing further is transmitted")
+    if witness is not None:
+        run, label, i, o = witness
+        ck.finding("F-C19-4", True, what, {"kind": "known finding reproduced (driver 2)", "scenario": label, "step": i, "outcome": [int(x) for x in o],
+                                           "driver": 2, "cfg": CL.jsonable(run.cfg), "pyevents": CL.jsonable(run.pyevents),
+                                           "model_events": run.events, "impl_trace": run.trace, "replay_op": "run2"})
+    else:
+        ck.finding("F-C19-4", False, what, {})
+
+
 # ------------------------------------------------------------------ the check
 def check_runs(ck, runs, label):
     nviol = 0
@@ -285,6 +442,8 @@ def run(ck):
     if chunk:
         check_runs(ck, chunk, label)
     ck.hist("small_scope_sequences", total)
+    # 4. the stop clauses over the REAL KafkaClient (C01's driver 2): known finding F-C19-4 and the monitors
+    check_driver2(ck, rnd, 150 * scale)
     if ck.tier == "thorough":
         ck.coqchk(["AV.Props.C19"])
     ck.cov["rule"] = ("seeded state-aware generator (random.Random(VERIF_SEED)) of event sequences over the real Producer: sends (1-4 messages, "
@@ -314,4 +473,10 @@ def run(ck):
 
 
 def replay(rp):
+    if rp.get("replay_op") == "run2":
+        vlib.import_repo()
+        from props import producer_c01_lib as CL
+        r = CL.replay_run2(rp["cfg"], rp["pyevents"])
+        return {"monitor": [[int(a), str(b)] for (a, b) in monitor2(r)], "impl_trace": r.trace, "model_events": r.events,
+                "successes_inside_stop": [[int(i), [int(x) for x in o], bool(a)] for (i, o, a) in stop_successes(r)]}
     return PC.replay(rp, monitor)
